@@ -222,7 +222,9 @@ theorem prefix_ends {P : Nat → Prop} {b : Builder} (h : SpansEnds P b) (p : St
   split
   · rename_i e he
     exact contentErr_endsIn hu he
-  · dsimp only
+  · split
+    · exact hsp
+    dsimp only
     split
     · trivial
     · rename_i eb heb
@@ -427,6 +429,9 @@ theorem step_ends {P : Nat → Prop} {b : Builder} (h : SpansEnds P b) (t : Toke
     exact SpanMap.add_allEnds h.1 _ (StrSpan.span_endsIn ht.1)
   | pi target content sp =>
     obtain ⟨ht1, ht2, _⟩ := ht
+    simp only [Builder.step]
+    split
+    · exact StrSpan.span_endsIn ht1
     refine ⟨?_, h.2⟩
     simp only [Builder.processingInstruction, Builder.addLeaf]
     have h1 := SpanMap.add_allEnds (k := ⟨b.curPath ++ [b.cur.rkids.length], .piTarget⟩) h.1 (StrSpan.span_endsIn ht1)
